@@ -17,6 +17,7 @@
 package generic
 
 import (
+	"errors"
 	"fmt"
 	"sort"
 	"strconv"
@@ -1216,6 +1217,10 @@ func (self *PathNode) scanChildren(p *thrift.BinaryProtocol, recurse bool, opts 
 		if kt == thrift.STRING {
 			// fast path: use hash to store the key.
 			if opts.StoreChildrenByHash && size > StoreChildrenByIntHashShreshold {
+				// every pair takes at least one byte: a larger count is malformed and must not size the table
+				if size > p.Left() {
+					return errNode(meta.ErrRead, "", errors.New("map size exceeds the data"))
+				}
 				// NOTE: we use original count*2 as the capacity of the hash table.
 				N = size * 2
 				guardPathNodeSlice(&con, N-1)
@@ -1246,6 +1251,10 @@ func (self *PathNode) scanChildren(p *thrift.BinaryProtocol, recurse bool, opts 
 		} else if kt.IsInt() {
 			// fast path: use hash to store the key.
 			if opts.StoreChildrenByHash && size > StoreChildrenByIntHashShreshold {
+				// every pair takes at least one byte: a larger count is malformed and must not size the table
+				if size > p.Left() {
+					return errNode(meta.ErrRead, "", errors.New("map size exceeds the data"))
+				}
 				// NOTE: we use original count*2 as the capacity of the hash table.
 				N = size * 2
 				guardPathNodeSlice(&con, N-1)
